@@ -68,6 +68,27 @@ def main(tier, only=None):
                            flags=CAD, timeout=1500 if thorough else 400, family="layout"))
         e1.run_set(chk, "c08/layout.c", hs, workers=8, extra_src=extra)
 
+    # ---- (b) type-specifier multisets
+    if want("declspec"):
+        nt = 6 if thorough else 5
+        chk.bounds += ["declspec: every sequence of 1..%d keywords from {void _Bool char short int long float double "
+                       "signed unsigned} followed by ';' (symbolic, all orders)" % nt]
+        chk.assumptions += [
+            "declspec: is_typename -> membership stub over the ten keywords; find_typedef -> NULL (asserts token is "
+            "not an identifier); equal -> spec specialised to pooled tokens (token invariant asserted); callees of the "
+            "_Atomic(/_Alignas/struct/union/enum/typeof branches are replaced by stubs that ASSERT unreachability"]
+        chk.outside += ["declspec: storage-class/qualifier keywords, _Atomic, _Alignas, struct/union/enum/typeof/"
+                        "typedef-name specifiers, _Complex; empty specifier list (implicit int)"]
+        rc = ["is_typename:stub_is_typename", "find_typedef:stub_find_typedef", "typename:cut_parse_type",
+              "struct_decl:cut_parse_type", "union_decl:cut_parse_type", "enum_specifier:cut_parse_type",
+              "typeof_specifier:cut_parse_type", "const_expr:cut_const_expr"]
+        hs = []
+        for key, mode in (("declspec/multiset/single-sign-keyword", 1), ("declspec/multiset/repeated-sign-keyword", 2)):
+            hs.append(e1.H("h_declspec", key, unwind=16, unwindset=("declspec.0:%d" % (nt + 2),),
+                           defines=("NT=%d" % nt, "MODE=%d" % mode), replace_calls=rc, timeout=600,
+                           family="declspec"))
+        e1.run_set(chk, "c08/declspec.c", hs, workers=4, extra_src=extra)
+
     if os.environ.get("VERIF_VERBOSE"):
         for o in chk.obl:
             print("  %-40s %-12s %6.1fs %s" % (o["key"], o["status"], o["secs"], o["detail"][:100]))
